@@ -219,6 +219,10 @@ def make_table(kind, rows):
     cols = [list(c) for c in zip(*rows)] if rows else None
     if kind == "interval":
         return dt.Interval(cols[0], cols[1], cols[2])
+    if kind == "strkey":
+        # a user-defined entry type whose grouping column is declared `str` (ragged text, not an identifier array):
+        # group-by takes its ragged-key path for it
+        return strkey_class()(cols[0], cols[1], cols[2])
     if kind == "stranded":
         return dt.StrandedInterval(cols[0], cols[1], cols[2], cols[3])
     if kind == "bedgraph":
@@ -226,6 +230,23 @@ def make_table(kind, rows):
     if kind == "reads":
         return dt.SequenceEntryWithQuality(cols[0], cols[1], [[ord(ch) - 33 for ch in q] for q in cols[2]])
     raise KeyError(kind)
+
+
+_STRKEY = []
+
+
+def strkey_class():
+    if not _STRKEY:
+        core.bnp()
+        from bionumpy.bnpdataclass import bnpdataclass
+
+        @bnpdataclass
+        class StrKeyInterval:
+            chromosome: str
+            start: int
+            stop: int
+        _STRKEY.append(StrKeyInterval)
+    return _STRKEY[0]
 
 
 def fmt_value(v):
@@ -254,7 +275,7 @@ def serialize(kind, rows, final_newline=True):
 
 
 SUFFIX = {"interval": ".bed", "stranded": ".bed", "bedgraph": ".bdg", "reads": ".fq"}
-FIELDS = {"interval": ["chromosome", "start", "stop"], "stranded": ["chromosome", "start", "stop", "strand"],
+FIELDS = {"interval": ["chromosome", "start", "stop"], "strkey": ["chromosome", "start", "stop"], "stranded": ["chromosome", "start", "stop", "strand"],
           "bedgraph": ["chromosome", "start", "stop", "value"], "reads": ["name", "sequence", "quality"]}
 
 
